@@ -70,10 +70,11 @@ def make_rich(kind):
         return Custom([1, "a"])
     if kind == "tuple":
         return (1, "a", None)
+    # (no strings inside sets: their iteration order would depend on PYTHONHASHSEED)
     if kind == "mixed_set":
-        return {1, "one"}
+        return {1, None}
     if kind == "none_set":
-        return {None, "x", 2.5}
+        return {None, 2.5, 7}
     if kind == "empty_set":
         return set()
     return None
